@@ -57,12 +57,31 @@ HeapFrameStep ==
           /\ heap[i].k = "func" => heap'[i] = heap[i]
 HeapFrame == [][HeapFrameStep]_mcvars
 
+\* A step that produces a freshly allocated container leaves every existing
+\* cell unchanged (BuildFresh): literals, spread, `+`, range read, `..`.
+BuildFreshStep ==
+    (c'.m = "V" /\ c'.s.v.k \in {"list", "object", "func"} /\ c'.s.v.id > Len(heap)) =>
+        (Len(heap') = Len(heap) + 1 /\ SubSeq(heap', 1, Len(heap)) = heap)
+BuildFresh == [][BuildFreshStep]_mcvars
+
 \* Scopes: a step changes at most one existing scope; scopes only gain names.
 ScopeFrameStep ==
     /\ Len(scopes') >= Len(scopes)
     /\ Cardinality({i \in 1 .. Len(scopes) : scopes'[i] # scopes[i]}) <= 1
     /\ \A i \in 1 .. Len(scopes) : DOMAIN scopes[i].vars \subseteq DOMAIN scopes'[i].vars
 ScopeFrame == [][ScopeFrameStep]_mcvars
+
+\* A new scope is fresh and empty (FreshPerEntry); a declaration changes only
+\* the innermost scope (ShadowFrame).
+FreshPerEntryStep ==
+    Len(scopes') > Len(scopes) =>
+        (Len(scopes') = Len(scopes) + 1 /\ scopes'[Len(scopes')].vars = <<>>
+         /\ env'[Len(env')] = Len(scopes'))
+FreshPerEntry == [][FreshPerEntryStep]_mcvars
+ShadowFrameStep ==
+    (c.m = "B" /\ c.lhs.t = "var" /\ c.bt = "decl") =>
+        \A i \in 1 .. Len(scopes) : i # env[Len(env)] => scopes'[i] = scopes[i]
+ShadowFrame == [][ShadowFrameStep]_mcvars
 
 \* Output only grows, and a finished run never moves again.
 OutputMonotoneStep == IsPrefix(out, out') /\ (status.k # "running" => UNCHANGED vars)
